@@ -503,6 +503,7 @@ Section P.
 
     Lemma refl_dec_strict : forall v, RQ v.
     Proof.
+      clear parse_print.
       induction v as [w b|b|s|l IH|kvs IH|l IH|t' v IH] using tval_ind2;
         intros t B Hwz Hty Hdom Hlens.
       - apply has_ty_VNum in Hty as (s & Ht & Hw & Hb). subst t.
@@ -786,3 +787,40 @@ Section P.
     apply Hst; [exact Hk|lia].
   Qed.
 End P.
+
+(* ---------- the switches are necessary: concrete witnesses ---------- *)
+Definition wcfg_drops_err : wcfg :=
+  {| value_reader_no_len := false; string_reader_drops_err := true; refl_drop8 := false;
+     refl_struct_ignores_err := false; refl_neg_len_panics := false |}.
+Definition wcfg_ignores_err : wcfg :=
+  {| value_reader_no_len := false; string_reader_drops_err := false; refl_drop8 := false;
+     refl_struct_ignores_err := true; refl_neg_len_panics := false |}.
+
+(* reader.go stringReader: the struct (s)<A,a> holding "hello", cut after 5 of its 9 bytes,
+   is read as a struct holding the empty string *)
+Example sig_read_prefix_refuted :
+  forall parse,
+  let t := TStruct "A" [("a"%string, TS SStr)] in
+  let v := VTup [VStr (bytes_of_string "hello")] in
+  good_ty t = true /\ has_ty v t = true /\ dyn_depth v <= 0 /\ 5 < List.length (spec_enc v) /\
+  sig_read parse wcfg_drops_err 0 t (firstn 5 (spec_enc v)) = ROk (enc_str [], []) /\
+  sig_read parse wpinned 0 t (firstn 5 (spec_enc v)) = ROk (enc_str [], []).
+Proof. intro parse. vm_compute. repeat split; try reflexivity; lia. Qed.
+
+(* encoding.go qiDecoder.value: the struct (ii) = (1, 2) cut after 4 of its 8 bytes is
+   decoded as (1, 0) *)
+Example refl_dec_prefix_refuted :
+  let t := TTuple [TS SI32; TS SI32] in
+  let v := VTup [VNum 4 1; VNum 4 2] in
+  good_ty t = true /\ has_ty v t = true /\ refl_domain t = true /\ lens_ok v = true /\
+  4 < List.length (spec_enc v) /\
+  refl_dec wcfg_ignores_err tval_eqb t (firstn 4 (spec_enc v)) = ROk (VTup [VNum 4 1; VNum 4 0], []) /\
+  refl_dec wpinned tval_eqb t (firstn 4 (spec_enc v)) = ROk (VTup [VNum 4 1; VNum 4 0], []).
+Proof. vm_compute. repeat split; try reflexivity; lia. Qed.
+
+Print Assumptions spec_dec_prefix.
+Print Assumptions sig_read_prefix.
+Print Assumptions refl_dec_prefix.
+Print Assumptions new_value_prefix.
+Print Assumptions sig_read_prefix_refuted.
+Print Assumptions refl_dec_prefix_refuted.
